@@ -186,13 +186,20 @@ class C14(fw.Prop):
                 from dlms_cosem.protocol.xdlms.selective_access import RangeDescriptor, CaptureObject
                 a = d["args"]
                 co = CaptureObject(cosem.CosemAttribute(en.CosemInterface(a["iface"]), cosem.Obis(*a["obis"]), a["attr"]), a["index"])
-                rd = RangeDescriptor(co, pydt.datetime(*a["from"]), pydt.datetime(*a["to"]))
+                def mkdt(v):
+                    us, off = (v[6], v[7]) if len(v) > 6 else (0, None)
+                    tz = None if off is None else pydt.timezone(pydt.timedelta(minutes=off))
+                    return pydt.datetime(*v[:6], us, tzinfo=tz)
+                rd = RangeDescriptor(co, mkdt(a["from"]), mkdt(a["to"]))
                 return "ok " + fw.hx(rd.to_bytes()[1:])     # without the access-selector byte
             a = d["args"]
 
             def dtb(v):
-                y, m, dd_, H, M, S = v
-                return y.to_bytes(2, "big") + bytes([m, dd_, 0xFF, H, M, S, 0, 0x80, 0x00, 0x00])
+                y, m, dd_, H, M, S = v[:6]
+                us, off = (v[6], v[7]) if len(v) > 6 else (0, None)
+                # hundredths = whole hundredths of the second; deviation = minutes to add to local time to get UTC
+                dev = b"\x80\x00" if off is None else ((-off) & 0xFFFF).to_bytes(2, "big")
+                return y.to_bytes(2, "big") + bytes([m, dd_, 0xFF, H, M, S, us // 10000]) + dev + b"\x00"
             tree = ("s", [("s", [("u16", a["iface"]), ("o", bytes(a["obis"])), ("i8", a["attr"]), ("u16", a["index"])]),
                           ("o", dtb(a["from"])), ("o", dtb(a["to"])), ("a", [])])
             return fw.Case("axdr enc " + " ".join(spec_tokens(tree)), impl, "prop", d, tags=("range-descriptor",))
@@ -290,6 +297,17 @@ class C14(fw.Prop):
                 "iface": rng.choice([1, 3, 7, 8, 70]), "obis": [rng.getrandbits(8) for _ in range(6)], "attr": rng.randint(-128, 127),
                 "index": rng.choice([0, 1, 65535]), "from": [rng.randint(1, 9999), rng.randint(1, 12), rng.randint(1, 28), rng.randint(0, 23), rng.randint(0, 59), rng.randint(0, 59)],
                 "to": [rng.randint(1, 9999), rng.randint(1, 12), rng.randint(1, 28), 0, 0, 0]}})
+        # range descriptors whose bounds carry microseconds (every hundredth, the last ones of a second) and UTC offsets on both
+        # sides of zero
+        for us in ([0, 9999, 10000, 126000, 290000, 570000, 580000, 994999, 995000, 999999] if not deep else
+                   [h * 10000 + x for h in range(100) for x in (0, 4999, 9999)]):
+            for off in (None, 0, 60, -1, -60, -300, -720, 840, -840):
+                yield mk({"op": "range_descriptor", "args": {
+                    "iface": 8, "obis": [0, 0, 1, 0, 0, 255], "attr": 2, "index": 0,
+                    "from": [2021, 7, 15, 12, 30, 59, us, off], "to": [2021, 12, 31, 23, 59, 59, 999999 if us % 20000 else 0, off]}})
+                if deep or us in (0, 999999):
+                    continue
+                break
         # model correspondence outside the property: random and mutated inputs
         pool = [ref_encode(t) for t in trees if len(ref_encode(t)) < 300]
         for _ in range(20000 if deep else 1500):
